@@ -144,7 +144,7 @@ def run_job(spec):
                     out['sat'] += 1
                     rec = dict(prop=spec['prop'], harness=spec['harness'], params=spec['params'],
                                goal=gname, values=_model_values(m, ctx.inputs),
-                               decisions=[bool(b) for b in eng.prefix],
+                               decisions=eng.decision_string(),
                                regions=[], known_region=kregion)
                     for rn, rt in ctx.regions.items():
                         try:
@@ -165,7 +165,7 @@ def run_job(spec):
             if len(out['samples']) < 2 and ctx.goals:
                 out['samples'].append(dict(
                     harness=spec['harness'], params=spec['params'],
-                    decisions=''.join('T' if b else 'F' for b in eng.prefix)[:80],
+                    decisions=eng.decision_string()[:120],
                     path_condition=[str(z3.simplify(c))[:160] for c in eng.pc[:6]],
                     goals=[g[0] for g in ctx.goals[:8]],
                     example_goal=str(ctx.goals[-1][1])[:400], notes=ctx.notes))
